@@ -134,3 +134,71 @@ func vh_C04_routing_matches_state() {
 	vCover(!subscribed, "ends-unsubscribed")
 	vCover(closed, "ends-closed")
 }
+
+// C04 with a publication in flight: a positioned, delta-negotiated
+// subscription receives its first live publication while the subscription is
+// being ended; the delivery path writes back to the connection's channel map
+// (position, delta flag), so routing state and the connection's own view must
+// still agree afterwards.
+func vh_C04_publication_in_flight() {
+	n := vNewNode(Config{})
+	n.OnConnect(func(c *Client) {
+		c.OnSubscribe(func(e SubscribeEvent, cb SubscribeCallback) {
+			cb(SubscribeReply{Options: SubscribeOptions{EnablePositioning: true, EnableRecovery: true, AllowedDeltaTypes: []DeltaType{DeltaTypeFossil}}}, nil)
+		})
+	})
+	tr := vNewTransport()
+	tr.proto = ProtocolTypeProtobuf // JSON delta payloads go through a dependency's string escaper
+	c := vNewClient(n, "u", tr)
+	vAssert(vConnect(c), "connects")
+	vSettle()
+	delta := ""
+	if vChoice("delta", 2) == 1 {
+		delta = string(DeltaTypeFossil)
+	}
+	c.HandleCommand(&protocol.Command{Id: 2, Subscribe: &protocol.SubscribeRequest{Channel: "ch", Delta: delta}}, 0)
+	vSettle()
+	vAssert(c.IsSubscribed("ch"), "pre-subscribed")
+	ender := vChoice("ender", 3)
+	end := func() {
+		switch ender {
+		case 0:
+			c.HandleCommand(&protocol.Command{Id: 3, Unsubscribe: &protocol.UnsubscribeRequest{Channel: "ch"}}, 0)
+		case 1:
+			c.Unsubscribe("ch")
+		default:
+			_ = c.close(DisconnectForceNoReconnect)
+		}
+	}
+	publish := func() {
+		_, _ = n.Publish("ch", []byte("{}"), WithHistory(3, 60_000_000_000), WithDelta(true))
+	}
+	first := vChoice("first", 2)
+	vPreempt(vParam("c04_preempt", 1))
+	if first == 0 {
+		go publish()
+		go end()
+	} else {
+		go end()
+		go publish()
+	}
+	vSettle()
+	vPreempt(0)
+	vAdvance(6_000_000_000)
+	vSettle()
+
+	subscribed := c.IsSubscribed("ch")
+	entry, _ := vHubEntry(n, "ch", c)
+	c.mu.RLock()
+	_, inChannels := c.channels["ch"]
+	c.mu.RUnlock()
+	vAssert(!subscribed, "subscription-ended")
+	vAssert(subscribed == entry, "routing-entry-iff-subscribed")
+	vAssert(inChannels == subscribed, "no-dangling-channel-context")
+	before := len(tr.frames)
+	_, err := n.Publish("ch", []byte("{}"), WithHistory(3, 60_000_000_000), WithDelta(true))
+	vAssert(err == nil, "publish ok")
+	vSettle()
+	vAssert(vCountPubs(tr, "ch", before) == 0, "no-publication-after-end")
+	vCover(delta != "", "delta-negotiated")
+}
